@@ -336,6 +336,7 @@ def run(ctx):
                 if not rel <= BULK_RTOL:
                     V.violation(ctx, "bulk density changed from %r to %r by a solve with the default specification (%s, %s)" % (b0, b1, s["system"], s["chain"]),
                                 {"broken": "implementation: bulk_unchanged", "input": key, "bulk_before": s["bulk_before"], "bulk_after": s["rho_b"]}, found_input=True)
+                    break
         if s["debug"]:
             continue
         n_ok += 1
@@ -418,8 +419,10 @@ def run(ctx):
     cross = {}
     for s in solves:
         g = (s["obs"] or {}).get("surface_tension")
+        # (a per-component particle number in a MIXTURE selects another coexistence state - other bulk compositions - and is
+        #  not comparable; for one component Moles and TotalMoles coincide)
         if s["result"] == "Ok" and not s["debug"] and isinstance(g, (int, float)) and s["tol_last"] is not None and s["tol_last"] <= TIGHT_TOL \
-                and "flag logic" not in s["system"]:
+                and "flag logic" not in s["system"] and not (s["spec_kind"] == 1 and len(s["comp_after"]) > 1):
             cross.setdefault(s["system"], []).append((g, s))
     cross_worst = 0.0
     for system, vals in cross.items():
